@@ -9,7 +9,8 @@ RULE = ("cycles of 1..6 elements (durations 1..9, sometimes up to 10^6; all colo
 ASSUMPTIONS = ["numpy cumsum/insert/argmax on int64 denote their list counterparts (sampled by the correspondence)",
                "durations and time steps fit in int64 (numpy); the model uses unbounded integers"]
 EXTRA_MODULES = ['CRProps.T17']      # translator tie: Gen.Src (regenerated from /repo every run) = hand model
-REQUIRED_BUCKETS = ["single-element", "t<offset", "boundary", "many-periods", "light/cycle-replaced", "light/inactive", "light/active", "cycle/setter-after-query"]
+REQUIRED_BUCKETS = ["single-element", "t<offset", "boundary", "many-periods", "light/cycle-replaced", "light/inactive", "light/active", "cycle/setter-after-query", "cycle/same-list-reassigned",
+                    "light/color-lacks-a-cycle-state", "light/color-disjoint-by-setter"]
 
 
 def _states():
@@ -73,8 +74,19 @@ def run_case(ctx, case):
     impl, impl_light = [], []
     cyc = mk()
     # an inactive light still "agrees with its cycle" (the property makes no exception); active both ways
-    light = TrafficLight(1, np.array([0.0, 0.0]), mk(), active=(off + len(es)) % 3 != 0)
+    # every optional constructor argument of the light is varied: the colour list (lamps the light has) may lack states of the
+    # cycle, be empty or be given through the setter; the property makes no exception for any of them
+    kw = {"active": (off + len(es)) % 3 != 0}
+    cmode = (off + 2 * len(es) + len(ts)) % 4
+    used = sorted({s for s, _ in es})
+    colors = {0: None, 1: [st[s] for s in used[:-1]], 2: [st[(used[0] + 1) % len(st)]], 3: [st[s] for s in used]}[cmode]
+    if colors is not None and cmode != 2:
+        kw["color"] = colors
+    light = TrafficLight(1, np.array([0.0, 0.0]), mk(), **kw)
+    if cmode == 2:
+        light.color = colors
     ctx.tag("light/inactive" if not light.active else "light/active")
+    ctx.tag(f"light/color-{['default', 'lacks-a-cycle-state', 'disjoint-by-setter', 'all-cycle-states'][cmode]}")
     for t in ts:
         r = call(cyc.get_state_at_time_step, t)
         impl.append({"ok": st.index(r[1])} if r[0] == "ok" else {"err": r[1]})
@@ -120,12 +132,19 @@ def run_case(ctx, case):
     if len(ts) % 2 == 0:
         es3 = es[::-1]
         cyc3.cycle_elements = [TrafficLightCycleElement(st[s], d) for s, d in es3]
-    for t in ts[:10]:
+    elif len(ts) % 3 == 0:
+        # the SAME list object edited in place and handed back to the setter (`cycle.cycle_elements += [...]`)
+        es3 = es + [[(es[0][0] + 2) % len(st), 2 + len(es) % 3]]
+        lst = cyc3.cycle_elements
+        lst.append(TrafficLightCycleElement(st[es3[-1][0]], es3[-1][1]))
+        cyc3.cycle_elements = lst
+        ctx.tag("cycle/same-list-reassigned")
+    for t in ts[:10] + [off3 + sum(d for _, d in es3) - 1, off3 + sum(d for _, d in es3) - 2]:
         a3 = call(cyc3.get_state_at_time_step, t)
         want3 = oracle_state(es3, off3, t)
         if a3[0] != "ok" or st.index(a3[1]) != want3:
             ctx.fail("C17/cycle.get_state_at_time_step/wrong-state-after-setter",
-                     f"after queries, time_offset = {off3}" + (" and cycle_elements reversed" if es3 is not es else "") +
+                     f"after queries, time_offset = {off3}" + (" and cycle_elements replaced / extended" if es3 is not es else "") +
                      f": t={t} reports {a3[1] if a3[0] == 'ok' else a3[2]}, the cycle definition gives {st[want3].name}",
                      {"es": es, "off": off, "ts": ts[:3] + [t]})
             break
